@@ -391,8 +391,8 @@ EXTRA3 = {
     'C11': 'Programs with a tagged factory held in a local and reused, and with local names spelled like builtins bound to '
            'configurable callables.',
     'C12': 'Leaves include strings with carriage returns and a function from a user module named auto_config; the '
-           'sub-fixture option also covers nested sub-fixtures (the middle node and a Buildable inside it; known finding: '
-           'shape 5).',
+           'sub-fixture option also covers nested sub-fixtures (the middle node and a Buildable inside it), also with the '
+           'nested one referenced by the top-level configuration as well (known finding: shape 4).',
     'C14': 'One tag set holds an unrelated tag with the same short name as T1.',
     'C15': 'set() is also called with two attributes, the first of which detaches nested matching nodes.',
     'C16': 'Suspension modes include a suspend block nested in another one and a suspend block entered with tracking '
